@@ -375,3 +375,270 @@ Theorem string_unescape_answer : forall t, unescape R_EXPR_STRING_ESCAPE t = Som
 Proof. intros t. rewrite string_escape_shape. apply unescape_answer. Qed.
 Theorem string_double_unescape_answer : forall t, unescape R_EXPR_STRING_DOUBLE_ESCAPE t = Some (unescape_direct 34 t).
 Proof. intros t. rewrite string_double_escape_shape. apply unescape_answer. Qed.
+
+Theorem variable_ex_unescape_answer : forall t, unescape R_EXPR_VARIABLE_EX_ESCAPE t = Some (unescape_direct 93 t).
+Proof. intros t. change R_EXPR_VARIABLE_EX_ESCAPE with (esc_regex 93). apply unescape_answer. Qed.
+
+(* ================================================================== E. the bracketed variable name  ^\s*\[\s*((?:\\\]|[^\]])+)\s*\]
+   After the bracket the engine skips white space (greedily, giving characters back when the rest fails), reads the name
+   -- at least one iteration of  \] | [^\]]  -- then  \s*\] .  White space is also a [^\]] character, so the greedy name
+   swallows the white space before the closing bracket (the final \s* always reads nothing), and the name may start inside
+   the leading white space when nothing else is there ( "[ ]" has the name " " ). *)
+(* position of the closing bracket, for a name that starts at [pos] *)
+Fixpoint scanv (pos : nat) (rest : str) {struct rest} : option nat :=
+  match rest with
+  | [] => None
+  | y :: t =>
+    if (y =? 93)%N then Some pos
+    else if (y =? 92)%N then
+      match t with
+      | z :: t' => if (z =? 93)%N then match scanv (S (S pos)) t' with Some e => Some e | None => Some (S pos) end
+                   else scanv (S pos) t
+      | [] => None
+      end
+    else scanv (S pos) t
+  end.
+(* the name must not be empty *)
+Definition varex_name (pos : nat) (rest : str) : option nat :=
+  match rest with y :: _ => if (y =? 93)%N then None else scanv pos rest | [] => None end.
+(* after the opening bracket (at position pos - 1): (start of the name, position of the closing bracket) *)
+Definition varex_after (pos : nat) (r : str) : option (nat * nat) :=
+  match snd (span_p is_space_u r) with
+  | [] => None
+  | y :: _ =>
+    if (y =? 93)%N then match fst (span_p is_space_u r) with O => None | S m => Some (pos + m, pos + S m) end
+    else option_map (fun e => (pos + fst (span_p is_space_u r), e)) (scanv (pos + fst (span_p is_space_u r)) (snd (span_p is_space_u r)))
+  end.
+(* the token after the leading white space of length p *)
+Definition varex_tok (p : nat) (r : str) : option (nat * nat) :=
+  match r with y :: t => if (y =? 91)%N then varex_after (S p) t else None | [] => None end.
+
+Lemma scanv_none_n : forall n rest pos, length rest < n -> (scanv pos rest = None <-> has_quote 93 rest = false).
+Proof.
+  induction n as [|n IH]; intros rest pos L; [lia|].
+  destruct rest as [|y t]; [split; reflexivity|]. cbn [length] in L. cbn [scanv has_quote existsb]. fold (has_quote 93 t).
+  destruct (y =? 93)%N; [split; discriminate|]. cbn [orb].
+  destruct (y =? 92)%N; [|apply IH; lia].
+  destruct t as [|z t']; [split; reflexivity|]. cbn [length] in L.
+  destruct (z =? 93)%N eqn:Z; [|apply IH; cbn [length]; lia].
+  cbn [has_quote existsb]. rewrite Z. destruct (scanv (S (S pos)) t'); split; discriminate.
+Qed.
+Theorem scanv_none rest pos : scanv pos rest = None <-> has_quote 93 rest = false.
+Proof. apply (scanv_none_n (S (length rest))). lia. Qed.
+
+Lemma scanv_sound_n : forall n rest pos e, length rest < n -> scanv pos rest = Some e ->
+  pos <= e /\ nth_error rest (e - pos) = Some 93%N.
+Proof.
+  induction n as [|n IH]; intros rest pos e L; [lia|].
+  destruct rest as [|y t]; [discriminate|]. cbn [length] in L. cbn [scanv].
+  destruct (y =? 93)%N eqn:Eq.
+  { intros H. inversion H; subst e. apply N.eqb_eq in Eq. subst y. rewrite Nat.sub_diag. split; [lia | reflexivity]. }
+  assert (T : scanv (S pos) t = Some e -> pos <= e /\ nth_error (y :: t) (e - pos) = Some 93%N).
+  { intros H. destruct (IH t (S pos) e ltac:(lia) H) as [A B]. split; [lia|].
+    replace (e - pos) with (S (e - S pos)) by lia. exact B. }
+  destruct (y =? 92)%N; [|exact T].
+  destruct t as [|z t']; [discriminate|]. cbn [length] in L.
+  destruct (z =? 93)%N eqn:Zq; [|exact T].
+  destruct (scanv (S (S pos)) t') as [e'|] eqn:S2.
+  - intros H. inversion H; subst e'. destruct (IH t' (S (S pos)) e ltac:(lia) S2) as [A B]. split; [lia|].
+    replace (e - pos) with (S (S (e - S (S pos)))) by lia. exact B.
+  - intros H. inversion H; subst e. apply N.eqb_eq in Zq. subst z. split; [lia|].
+    replace (S pos - pos) with 1 by lia. reflexivity.
+Qed.
+Theorem scanv_sound rest pos e : scanv pos rest = Some e -> pos <= e /\ nth_error rest (e - pos) = Some 93%N.
+Proof. apply (scanv_sound_n (S (length rest))). lia. Qed.
+
+Lemma space_not_93 y : is_space_u y = true -> (y =? 93)%N = false.
+Proof. intros S. destruct (y =? 93)%N eqn:E; [|reflexivity]. apply N.eqb_eq in E. subst y. discriminate. Qed.
+Lemma space_not_92 y : is_space_u y = true -> (y =? 92)%N = false.
+Proof. intros S. destruct (y =? 92)%N eqn:E; [|reflexivity]. apply N.eqb_eq in E. subst y. discriminate. Qed.
+Lemma space_not_91 y : is_space_u y = true -> (y =? 91)%N = false.
+Proof. intros S. destruct (y =? 91)%N eqn:E; [|reflexivity]. apply N.eqb_eq in E. subst y. discriminate. Qed.
+
+(* white space is skipped by the scanner like any other character *)
+Lemma scanv_span : forall r pos, scanv pos r = scanv (pos + fst (span_p is_space_u r)) (snd (span_p is_space_u r)).
+Proof.
+  induction r as [|y t IH]; intros pos; cbn [span_p].
+  - cbn [fst snd]. rewrite Nat.add_0_r. reflexivity.
+  - destruct (is_space_u y) eqn:Sy.
+    + cbn [scanv]. rewrite (space_not_93 y Sy), (space_not_92 y Sy). rewrite IH.
+      destruct (span_p is_space_u t) as [n r']. cbn [fst snd]. replace (pos + S n) with (S pos + n) by lia. reflexivity.
+    + cbn [fst snd]. rewrite Nat.add_0_r. reflexivity.
+Qed.
+
+(* \s*\]  *)
+Definition close_after_space (r : str) : option nat :=
+  match snd (span_p is_space_u r) with
+  | y :: _ => if (y =? 93)%N then Some (S (fst (span_p is_space_u r))) else None
+  | [] => None
+  end.
+Lemma ev_close p r c : ev UC (RCat rspW (RLit 93%N)) p r c kfin =
+  match close_after_space r with Some m => MYes (p + m) c | None => MNo end.
+Proof.
+  rewrite ev_cat. unfold rspW. rewrite (ev_star UC _ _ (one_in UC false _)). fold cmW.
+  rewrite star_bt_longest.
+  2:{ right. intros p' y t c' Hy. rewrite (ev_one UC _ _ (one_lit UC 93)).
+      rewrite cmW_is in Hy. rewrite (space_not_93 y Hy). reflexivity. }
+  rewrite (ev_one UC _ _ (one_lit UC 93)). unfold close_after_space. rewrite spanW.
+  destruct (snd (span_p is_space_u r)) as [|y t]; [reflexivity|]. destruct (y =? 93)%N; [|reflexivity].
+  unfold kfin. replace (S (p + fst (span_p is_space_u r))) with (p + S (fst (span_p is_space_u r))) by lia. reflexivity.
+Qed.
+Lemma close_none : forall r, has_quote 93 r = false -> close_after_space r = None.
+Proof.
+  unfold close_after_space. induction r as [|y t IH]; [reflexivity|]. cbn [has_quote existsb]. fold (has_quote 93 t).
+  intros H. apply orb_false_iff in H. destruct H as [Y T]. cbn [span_p]. destruct (is_space_u y).
+  - specialize (IH T). destruct (span_p is_space_u t) as [n r']. cbn [fst snd] in *.
+    destruct r' as [|y' t']; [reflexivity|]. destruct (y' =? 93)%N; [discriminate | reflexivity].
+  - cbn [fst snd]. rewrite Y. reflexivity.
+Qed.
+
+Definition var_alt : regex := RAlt (RCat (RLit 92) (RLit 93)) (RNotLit 93).
+Definition var_tail : regex := RCat (RGroup 1 (RRep 1 None var_alt)) (RCat rspW (RLit 93%N)).
+Definition var_tok : regex := RCat (RLit 91%N) (RCat rspW var_tail).
+
+Lemma variable_ex_regex_shape : R_EXPR_VARIABLE_EX = RCat RBol (RCat rspW var_tok).
+Proof. reflexivity. Qed.
+
+Lemma var_alt_step pos rest c (k : kont) :
+  ev UC var_alt pos rest c k =
+  match rest with
+  | [] => MNo
+  | y :: t =>
+    match (if (y =? 92)%N then match t with z :: t' => if (z =? 93)%N then k (S (S pos)) t' c else MNo | [] => MNo end else MNo) with
+    | MNo => if (y =? 93)%N then MNo else k (S pos) t c
+    | res => res
+    end
+  end.
+Proof.
+  unfold var_alt. cbn [ev]. destruct rest as [|y t]; [reflexivity|].
+  destruct (y =? 92)%N; [|reflexivity]. destruct t as [|z t']; [reflexivity|]. destruct (z =? 93)%N; reflexivity.
+Qed.
+
+Section VarEx.
+Variable p0 : nat.
+Variable k : kont.
+Hypothesis K : forall p r' c', k p r' c' = ev UC (RCat rspW (RLit 93%N)) p r' (cap_set 1 (p0, p) c') kfin.
+
+Lemma k_close p t c : k p (93%N :: t) c = MYes (S p) (cap_set 1 (p0, p) c).
+Proof.
+  rewrite K, ev_close. unfold close_after_space. cbn [span_p]. change (is_space_u 93) with false. cbn [fst snd N.eqb Pos.eqb].
+  replace (p + 1) with (S p) by lia. reflexivity.
+Qed.
+Lemma k_refuses p r c : has_quote 93 r = false -> k p r c = MNo.
+Proof. intros H. rewrite K, ev_close, (close_none r H). reflexivity. Qed.
+
+Lemma var_star : forall n pos rest c, length rest < n ->
+  ev_rep (ev UC var_alt) n 0 None pos rest c k =
+  match scanv pos rest with Some e => MYes (S e) (cap_set 1 (p0, e) c) | None => MNo end.
+Proof.
+  induction n as [|n IH]; intros pos rest c L; [lia|].
+  rewrite ev_rep_S. cbn [pred option_map]. rewrite var_alt_step.
+  destruct rest as [|y t].
+  { rewrite k_refuses by reflexivity. reflexivity. }
+  cbn [length] in L. cbn [scanv].
+  destruct (y =? 93)%N eqn:Eq.
+  { assert (E92 : (y =? 92)%N = false) by (apply N.eqb_eq in Eq; subst y; reflexivity).
+    rewrite E92. apply N.eqb_eq in Eq. subst y. apply k_close. }
+  rewrite neq_succ.
+  assert (T : ev_rep (ev UC var_alt) n 0 None (S pos) t c k =
+              match scanv (S pos) t with Some e => MYes (S e) (cap_set 1 (p0, e) c) | None => MNo end).
+  { apply IH. lia. }
+  (* when the rest does not close, neither does the continuation tried here *)
+  assert (F : scanv (S pos) t = None -> k pos (y :: t) c = MNo).
+  { intros H. apply k_refuses. cbn [has_quote existsb]. rewrite Eq. exact (proj1 (scanv_none t _) H). }
+  destruct (y =? 92)%N eqn:E92.
+  2:{ rewrite T. destruct (scanv (S pos) t) eqn:S1; [reflexivity | exact (F eq_refl)]. }
+  destruct t as [|z t'].
+  { rewrite T. cbn [scanv]. exact (F eq_refl). }
+  cbn [length] in L. rewrite neq_succ2.
+  destruct (z =? 93)%N eqn:Z93.
+  - rewrite (IH (S (S pos)) t') by lia.
+    destruct (scanv (S (S pos)) t') as [e|]; [reflexivity|].
+    rewrite T. cbn [scanv]. rewrite Z93. reflexivity.
+  - rewrite T. destruct (scanv (S pos) (z :: t')) eqn:S1; [reflexivity | exact (F eq_refl)].
+Qed.
+
+Lemma var_plus : forall n pos rest c, length rest < n ->
+  ev_rep (ev UC var_alt) (S n) 1 None pos rest c k =
+  match varex_name pos rest with Some e => MYes (S e) (cap_set 1 (p0, e) c) | None => MNo end.
+Proof.
+  intros n pos rest c L. rewrite ev_rep_S. cbn [pred option_map]. rewrite var_alt_step. unfold varex_name.
+  destruct rest as [|y t]; [reflexivity|]. cbn [length] in L. cbn [scanv].
+  destruct (y =? 93)%N eqn:Eq.
+  { assert (E92 : (y =? 92)%N = false) by (apply N.eqb_eq in Eq; subst y; reflexivity). rewrite E92. reflexivity. }
+  rewrite neq_succ.
+  assert (T : ev_rep (ev UC var_alt) n 0 None (S pos) t c k =
+              match scanv (S pos) t with Some e => MYes (S e) (cap_set 1 (p0, e) c) | None => MNo end).
+  { apply var_star. lia. }
+  destruct (y =? 92)%N eqn:E92.
+  2:{ rewrite T. destruct (scanv (S pos) t); reflexivity. }
+  destruct t as [|z t'].
+  { rewrite T. reflexivity. }
+  cbn [length] in L. rewrite neq_succ2.
+  destruct (z =? 93)%N eqn:Z93.
+  - rewrite (var_star n (S (S pos)) t') by lia.
+    destruct (scanv (S (S pos)) t') as [e|]; [reflexivity|].
+    rewrite T. cbn [scanv]. rewrite Z93. reflexivity.
+  - rewrite T. destruct (scanv (S pos) (z :: t')); reflexivity.
+Qed.
+End VarEx.
+
+Lemma ev_var_tail p r : ev UC var_tail p r [] kfin =
+  match varex_name p r with Some e => MYes (S e) [(1%nat, (p, e))] | None => MNo end.
+Proof.
+  unfold var_tail. rewrite ev_cat, ev_group, ev_rep_unfold.
+  rewrite (var_plus p _ (fun p1 r1 c1 => eq_refl)) by lia. reflexivity.
+Qed.
+
+Definition varex_spec (o : option (nat * nat)) : mres :=
+  match o with Some (a, e) => MYes (S e) [(1%nat, (a, e))] | None => MNo end.
+
+(* the white space after the bracket: longest run first, then shorter ones *)
+Lemma var_after_space : forall r pos,
+  star_bt cmW (fun p r' c' => ev UC var_tail p r' c' kfin) pos r [] = varex_spec (varex_after pos r).
+Proof.
+  induction r as [|y t IH]; intros pos; cbn [star_bt].
+  - rewrite ev_var_tail. reflexivity.
+  - rewrite cmW_is. unfold varex_after. cbn [span_p]. destruct (is_space_u y) eqn:Sy.
+    + rewrite IH. unfold varex_after.
+      assert (Back : ev UC var_tail pos (y :: t) [] kfin =
+                     match scanv (pos + S (fst (span_p is_space_u t))) (snd (span_p is_space_u t)) with
+                     | Some e => MYes (S e) [(1%nat, (pos, e))] | None => MNo end).
+      { rewrite ev_var_tail. unfold varex_name. rewrite (space_not_93 y Sy). rewrite scanv_span. cbn [span_p]. rewrite Sy.
+        destruct (span_p is_space_u t) as [n r']. reflexivity. }
+      destruct (span_p is_space_u t) as [n r']. cbn [fst snd] in *.
+      destruct r' as [|y' t']; [rewrite Back; reflexivity|].
+      destruct (y' =? 93)%N eqn:E93.
+      * destruct n as [|m].
+        -- cbn [varex_spec]. rewrite Back. cbn [scanv]. rewrite E93. cbn [varex_spec].
+           replace (pos + 0) with pos by lia. replace (pos + 1) with (S pos) by lia. reflexivity.
+        -- cbn [varex_spec]. replace (S pos + S m) with (pos + S (S m)) by lia. replace (S pos + m) with (pos + S m) by lia.
+           reflexivity.
+      * replace (S pos + n) with (pos + S n) by lia.
+        destruct (scanv (pos + S n) (y' :: t')) as [e|] eqn:S1; cbn [option_map varex_spec].
+        -- reflexivity.
+        -- rewrite Back. reflexivity.
+    + cbn [fst snd]. rewrite ev_var_tail. unfold varex_name. rewrite Nat.add_0_r.
+      destruct (y =? 93)%N; [reflexivity|]. destruct (scanv pos (y :: t)); reflexivity.
+Qed.
+
+Lemma ev_var_tok p r : ev UC var_tok p r [] kfin = varex_spec (varex_tok p r).
+Proof.
+  unfold var_tok, varex_tok. rewrite ev_cat. rewrite (ev_one UC _ _ (one_lit UC 91)).
+  destruct r as [|y t]; [reflexivity|]. destruct (y =? 91)%N; [|reflexivity].
+  cbv beta. rewrite ev_cat. unfold rspW. rewrite (ev_star UC _ _ (one_in UC false _)). fold cmW.
+  apply var_after_space.
+Qed.
+
+Theorem variable_ex_answer : forall s,
+  re_match UC R_EXPR_VARIABLE_EX s =
+  match varex_tok (fst (span_p is_space_u s)) (snd (span_p is_space_u s)) with
+  | Some (a, e) => MYes (S e) [(1%nat, (a, e))]
+  | None => MNo
+  end.
+Proof.
+  intros s. rewrite variable_ex_regex_shape.
+  apply (tok_answer_gen var_tok (fun p r => varex_spec (varex_tok p r))).
+  - exact ev_var_tok.
+  - intros p y t S. unfold varex_tok. rewrite (space_not_91 y S). reflexivity.
+Qed.
